@@ -13,12 +13,17 @@ import (
 
 // hugeLine: a multi-entry value with one line of 1.2 MiB between ordinary lines (C01, C03).
 func hugeLine() []*Scenario {
-	big := strings.Repeat("x", 1200*1024+17)
-	v := "first line\n" + big + "\nlast line"
-	v2 := "first line\n" + big[:len(big)-1] + "y\nlast line"
-	sc := &Scenario{ID: "hugeline", Configs: stdConfigs(), Program: []string{"TestA", "TestB"}}
+	return append(hugeLineOf("hugeline", "snapshot", 1200*1024+17, "first line\n", "\nlast line"),
+		hugeLineOf("hugeyaml", "yaml", 6*1024*1024+5, "# a document with one very long scalar\nblob: \"", "\"\nafter: true\n")...)
+}
+
+func hugeLineOf(id, api string, size int, head, tail string) []*Scenario {
+	big := strings.Repeat("x", size)
+	v := head + big + tail
+	v2 := head + big[:len(big)-1] + "y" + tail
+	sc := &Scenario{ID: id, Configs: stdConfigs(), Program: []string{"TestA", "TestB"}}
 	mk := func(a string) []*Step {
-		return []*Step{{Op: "begin", Name: "TestA"}, {Op: "match", Name: "TestA", API: "snapshot", Cfg: "c", Val: strVal(a)}, {Op: "end", Name: "TestA"},
+		return []*Step{{Op: "begin", Name: "TestA"}, {Op: "match", Name: "TestA", API: api, Cfg: "c", Val: strVal(a)}, {Op: "end", Name: "TestA"},
 			{Op: "begin", Name: "TestB"}, {Op: "match", Name: "TestB", API: "snapshot", Cfg: "c", Val: strVal("after the big one")}, {Op: "end", Name: "TestB"}}
 	}
 	sc.Procs = append(sc.Procs, &Proc{Spec: procSpec("default"), Steps: mk(v)})
@@ -26,7 +31,7 @@ func hugeLine() []*Scenario {
 	sc.Procs = append(sc.Procs, &Proc{Spec: procSpec("ci"), Steps: mk(v2)})
 	sc.Procs = append(sc.Procs, &Proc{Spec: procSpec("update"), Steps: mk(v2)})
 	sc.Procs = append(sc.Procs, &Proc{Spec: procSpec("ci"), Steps: mk(v2)})
-	sc.Note = "a value with one line of 1.2 MiB: record, replay, one byte changed, update, replay"
+	sc.Note = fmt.Sprintf("a %s value with one line of %d bytes: record, replay, one byte changed, update, replay", api, size)
 	return []*Scenario{sc}
 }
 
